@@ -2,15 +2,18 @@
   LucidProofs.Lemmas.StableText — texts the tokenizer leaves alone.
 
   `Stable E cs`: the typed text `cs` is one word already in normal form: non-empty, no separator inside, begins
-  and ends with a letter or digit, no upper-case character, and the language's compose / reduce tables do not
-  change it. For such a text both tokenizer pipelines of the source return exactly one word `(0, |cs|)` over
+  and ends with a letter or digit, every character is its own lower-case form (`lower1 c = c`; since the D5 fix
+  `TextOwn::lower` lower-cases every character unconditionally, so this — not "no upper-case character" — is what
+  makes `lower` the identity), and the language's compose / reduce tables do not change it. For such a text both tokenizer pipelines of the source return exactly one word `(0, |cs|)` over
   the unchanged characters (`tokenizeQuery_stable`, `tokenizeRecord_stable`): this discharges the premises
   "the tokenised query is the single unfinished word … with characters …" of the end-to-end findability
   theorems (C03, C04, C13, C14).
 
   Conversely the characters of every word of a tokenised title, and every prefix of them ending in a letter or
-  digit, satisfy all clauses of `Stable` except normaliser-stability and the un-lowerable capitals of finding
-  D4 (`stable_of_title_prefix`).
+  digit, satisfy all clauses of `Stable` except normaliser-stability (`stable_of_title_prefix`): the characters
+  of a tokenised text are `lower1`-images (`tokenizeRecord_chars_lower_fixed`), and `lower1` is idempotent
+  (`UnicodeFacts.lower_idem`), so `lower_fixed` follows from the pipeline — nothing about upper-case characters
+  has to be assumed (the un-lowerable capitals of finding D4 are fixed by `lower1` too).
 -/
 import LucidProofs.C15
 
@@ -22,13 +25,13 @@ structure Stable (E : Env) (cs : List Nat) : Prop where
   no_sep      : ∀ c ∈ cs, isSepChar E.U E.K c = false
   first_alnum : cs.head?.map E.U.isAlnum = some true
   last_alnum  : cs.getLast?.map E.U.isAlnum = some true
-  no_upper    : ∀ c ∈ cs, E.U.isUppercase c = false
+  lower_fixed : ∀ c ∈ cs, E.U.lower1 c = c
   compose_id  : compose E.T cs = cs
   reduce_none : reduce E.T cs = none
 
 theorem stable_iff (E : Env) (cs : List Nat) :
     Stable E cs ↔ (cs ≠ [] ∧ (∀ c ∈ cs, isSepChar E.U E.K c = false) ∧ cs.head?.map E.U.isAlnum = some true ∧
-      cs.getLast?.map E.U.isAlnum = some true ∧ (∀ c ∈ cs, E.U.isUppercase c = false) ∧
+      cs.getLast?.map E.U.isAlnum = some true ∧ (∀ c ∈ cs, E.U.lower1 c = c) ∧
       compose E.T cs = cs ∧ reduce E.T cs = none) :=
   ⟨fun h => ⟨h.1, h.2, h.3, h.4, h.5, h.6, h.7⟩, fun ⟨a, b, c, d, e, f, g⟩ => ⟨a, b, c, d, e, f, g⟩⟩
 
@@ -117,14 +120,14 @@ theorem strip_oneWord (E : Env) (cs : List Nat) (f : Bool) (hne : cs ≠ [])
     Bool.or_false]
   simp [renumber, WordShape.len, hl]
 
-theorem lower_oneWord (E : Env) (cs : List Nat) (f : Bool) (h : ∀ c ∈ cs, E.U.isUppercase c = false) :
+theorem map_lower_fixed (E : Env) (cs : List Nat) (h : ∀ c ∈ cs, E.U.lower1 c = c) : cs.map E.U.lower1 = cs := by
+  calc cs.map E.U.lower1 = cs.map id := List.map_congr_left h
+    _ = cs := List.map_id cs
+
+theorem lower_oneWord (E : Env) (cs : List Nat) (f : Bool) (h : ∀ c ∈ cs, E.U.lower1 c = c) :
     (oneWord cs f).lower E = oneWord cs f := by
-  have : (oneWord cs f).chars.any E.U.isUppercase = false := by
-    rw [Bool.eq_false_iff]
-    intro h'
-    obtain ⟨c, hc, hu⟩ := List.any_eq_true.1 h'
-    rw [h c hc] at hu; cases hu
-  simp [Text.lower, this]
+  have : (oneWord cs f).chars.map E.U.lower1 = (oneWord cs f).chars := map_lower_fixed E cs h
+  simp only [Text.lower, this]
 
 theorem tail_oneWord (E : Env) (cs : List Nat) (f : Bool) :
     ((((oneWord cs f).setPos E).setCharClasses E).setStem E) = stableText E cs f := by
@@ -136,14 +139,14 @@ theorem tokenizeQuery_stable (E : Env) (cs : List Nat) (h : Stable E cs) :
     tokenizeQuery Gen.srcProg E cs = stableText E cs false := by
   show ((((((((Text.fromChars cs).normalize E).setFin false).split E _).strip E _).lower E).setPos E).setCharClasses E).setStem E = _
   rw [normalize_stable E cs h.compose_id h.reduce_none, setFin_oneWord, split_oneWord E cs _ h.nonempty h.no_sep,
-    strip_oneWord E cs _ h.nonempty h.first_alnum h.last_alnum, lower_oneWord E cs _ h.no_upper, tail_oneWord]
+    strip_oneWord E cs _ h.nonempty h.first_alnum h.last_alnum, lower_oneWord E cs _ h.lower_fixed, tail_oneWord]
 
 /-- **`tokenize_record` on a stable text**: exactly the one finished word `(0, |cs|)`. -/
 theorem tokenizeRecord_stable (E : Env) (cs : List Nat) (h : Stable E cs) :
     tokenizeRecord Gen.srcProg E cs = stableText E cs true := by
   show (((((((Text.fromChars cs).normalize E).split E _).strip E _).lower E).setPos E).setCharClasses E).setStem E = _
   rw [normalize_stable E cs h.compose_id h.reduce_none, split_oneWord E cs _ h.nonempty h.no_sep,
-    strip_oneWord E cs _ h.nonempty h.first_alnum h.last_alnum, lower_oneWord E cs _ h.no_upper, tail_oneWord]
+    strip_oneWord E cs _ h.nonempty h.first_alnum h.last_alnum, lower_oneWord E cs _ h.lower_fixed, tail_oneWord]
 
 /-- the word of `stableText` -/
 def stableWord (E : Env) (cs : List Nat) (f : Bool) : WordShape :=
@@ -214,22 +217,58 @@ theorem TokInv.wchars_facts {E : Env} {q : Bool} {s : List Nat} {t : Text} (h : 
     simp only [wchars] at hl this ⊢
     rw [hl, this]; simp [ha]
 
-/-- **Prefixes of title words are stable up to two residual conditions.** For a title produced by
+/-- the six steps after `normalize` / `fin` -/
+def pipeTail (E : Env) (t : Text) : Text :=
+  (((((t.split E [CharClass.whitespace, CharClass.control, CharClass.punctuation]).strip E
+    [CharClass.notAlphaNum]).lower E).setPos E).setCharClasses E).setStem E
+
+/-- the only step after `normalize` that touches the character array is `lower`, which maps `lower1` over it -/
+theorem pipeTail_chars (E : Env) (t : Text) : (pipeTail E t).chars = t.chars.map E.U.lower1 := rfl
+
+/-- **Every character of a tokenised text is its own lower-case form** (both pipelines of the source), given
+    only that `lower1` is idempotent (`UnicodeFacts.lower_idem`). -/
+theorem tokenizeRecord_chars_lower_fixed (E : Env) (hU : UnicodeFacts E.U E.K) (s : List Nat) :
+    ∀ c ∈ (tokenizeRecord Gen.srcProg E s).chars, E.U.lower1 c = c := by
+  intro c hc
+  have e : tokenizeRecord Gen.srcProg E s = pipeTail E ((Text.fromChars s).normalize E) := rfl
+  rw [e, pipeTail_chars] at hc
+  obtain ⟨c0, _, rfl⟩ := List.mem_map.1 hc
+  exact hU.lower_idem c0
+
+theorem tokenizeQuery_chars_lower_fixed (E : Env) (hU : UnicodeFacts E.U E.K) (s : List Nat) :
+    ∀ c ∈ (tokenizeQuery Gen.srcProg E s).chars, E.U.lower1 c = c := by
+  intro c hc
+  have e : tokenizeQuery Gen.srcProg E s = pipeTail E (((Text.fromChars s).normalize E).setFin false) := rfl
+  rw [e, pipeTail_chars] at hc
+  obtain ⟨c0, _, rfl⟩ := List.mem_map.1 hc
+  exact hU.lower_idem c0
+
+theorem mem_chars_of_mem_wchars {t : Text} {w : WordShape} {c : Nat} (h : c ∈ wchars t w) : c ∈ t.chars := by
+  simp only [wchars, slice] at h
+  exact List.mem_of_mem_drop (List.mem_of_mem_take h)
+
+/-- the word characters of a tokenised title are fixed by lower-casing -/
+theorem wchars_title_lower_fixed (E : Env) (hU : UnicodeFacts E.U E.K) (s : List Nat) (w : WordShape) :
+    ∀ c ∈ wchars (tokenizeRecord Gen.srcProg E s) w, E.U.lower1 c = c :=
+  fun c hc => tokenizeRecord_chars_lower_fixed E hU s c (mem_chars_of_mem_wchars hc)
+
+/-- **Prefixes of title words are stable up to one residual condition.** For a title produced by
     `tokenize_record`, a word `w` of it and `1 ≤ k`, the prefix `p` of `k` characters of the word, if it ends
-    in a letter or digit, satisfies every clause of `Stable` except (a) stability under the language's
-    compose/reduce tables — a prefix can end in the first half of a two-character table key — and (b) freedom
-    from the upper-case characters that `to_lowercase` leaves alone (finding D4); these are the hypotheses. -/
+    in a letter or digit, satisfies every clause of `Stable` except stability under the language's
+    compose/reduce tables — a prefix can end in the first half of a two-character table key; that is the only
+    hypothesis left (`hc`, `hr`). That every character of `p` is its own lower-case form follows from the
+    pipeline (`wchars_title_lower_fixed`). -/
 theorem stable_of_title_prefix (E : Env) (hU : UnicodeFacts E.U E.K) (hT : TablesOK E.T = true) (hS : StemHyp E)
     (s : List Nat) (w : WordShape) (hw : w ∈ (tokenizeRecord Gen.srcProg E s).words) (k : Nat) (hk : 1 ≤ k)
     (hlast : ((wchars (tokenizeRecord Gen.srcProg E s) w).take k).getLast?.map E.U.isAlnum = some true)
     (hc : compose E.T ((wchars (tokenizeRecord Gen.srcProg E s) w).take k)
             = (wchars (tokenizeRecord Gen.srcProg E s) w).take k)
-    (hr : reduce E.T ((wchars (tokenizeRecord Gen.srcProg E s) w).take k) = none)
-    (hup : ∀ c ∈ (wchars (tokenizeRecord Gen.srcProg E s) w).take k, E.U.isUppercase c = false) :
+    (hr : reduce E.T ((wchars (tokenizeRecord Gen.srcProg E s) w).take k) = none) :
     Stable E ((wchars (tokenizeRecord Gen.srcProg E s) w).take k) := by
   have hi : TokInv E false s (tokenizeRecord Gen.srcProg E s) := C15_record_anyK E hU hT hS s
   obtain ⟨hne, _, hsep, hfirst, _, _⟩ := hi.wchars_facts w hw
-  refine ⟨?_, fun c hc => hsep c (List.mem_of_mem_take hc), ?_, hlast, hup, hc, hr⟩
+  refine ⟨?_, fun c hc => hsep c (List.mem_of_mem_take hc), ?_, hlast,
+    fun c hc => wchars_title_lower_fixed E hU s w c (List.mem_of_mem_take hc), hc, hr⟩
   · intro e
     rw [List.take_eq_nil_iff] at e
     rcases e with e | e
@@ -241,26 +280,15 @@ theorem stable_of_title_prefix (E : Env) (hU : UnicodeFacts E.U E.K) (hT : Table
 theorem stable_of_title_word (E : Env) (hU : UnicodeFacts E.U E.K) (hT : TablesOK E.T = true) (hS : StemHyp E)
     (s : List Nat) (w : WordShape) (hw : w ∈ (tokenizeRecord Gen.srcProg E s).words)
     (hc : compose E.T (wchars (tokenizeRecord Gen.srcProg E s) w) = wchars (tokenizeRecord Gen.srcProg E s) w)
-    (hr : reduce E.T (wchars (tokenizeRecord Gen.srcProg E s) w) = none)
-    (hup : ∀ c ∈ wchars (tokenizeRecord Gen.srcProg E s) w, E.U.isUppercase c = false) :
+    (hr : reduce E.T (wchars (tokenizeRecord Gen.srcProg E s) w) = none) :
     Stable E (wchars (tokenizeRecord Gen.srcProg E s) w) := by
   have hi : TokInv E false s (tokenizeRecord Gen.srcProg E s) := C15_record_anyK E hU hT hS s
   obtain ⟨hne, _, hsep, hfirst, hlast, _⟩ := hi.wchars_facts w hw
-  exact ⟨hne, hsep, hfirst, hlast, hup, hc, hr⟩
+  exact ⟨hne, hsep, hfirst, hlast, wchars_title_lower_fixed E hU s w, hc, hr⟩
 
 /-! ### the query and the record pipeline cut the same text into the same words -/
 
-/-- the six steps after `normalize` / `fin` -/
-def pipeTail (E : Env) (t : Text) : Text :=
-  (((((t.split E [CharClass.whitespace, CharClass.control, CharClass.punctuation]).strip E
-    [CharClass.notAlphaNum]).lower E).setPos E).setCharClasses E).setStem E
-
-theorem lower_words (E : Env) (t : Text) : (t.lower E).words = t.words := by
-  simp only [Text.lower]; split <;> rfl
-
-theorem stable_lower_chars (E : Env) (t : Text) :
-    (t.lower E).chars = if t.chars.any E.U.isUppercase then t.chars.map E.U.lower1 else t.chars := by
-  simp only [Text.lower]; split <;> rfl
+theorem stable_lower_words (E : Env) (t : Text) : (t.lower E).words = t.words := rfl
 
 /-- spans and characters of the pipeline result, for a text with one word covering everything -/
 theorem pipeTail_spans (E : Env) (t : Text) (w0 : WordShape) (hw : t.words = [w0]) (hlo : w0.lo = 0)
@@ -268,7 +296,7 @@ theorem pipeTail_spans (E : Env) (t : Text) (w0 : WordShape) (hw : t.words = [w0
     (pipeTail E t).words.map WordShape.span =
       ((splitSpanList (isSepChar E.U E.K) w0.fin t.chars).map
         (stripSpan (fun c => !E.U.isAlnum c) t.chars)).filter (fun x => decide (x.lo < x.hi)) ∧
-    (pipeTail E t).chars = (if t.chars.any E.U.isUppercase then t.chars.map E.U.lower1 else t.chars) := by
+    (pipeTail E t).chars = t.chars.map E.U.lower1 := by
   obtain ⟨a1, _, a3, _⟩ :=
     split_single E [CharClass.whitespace, CharClass.control, CharClass.punctuation] t w0 hw hlo hhi
   obtain ⟨b1, _, b3, _⟩ := strip_spans E [CharClass.notAlphaNum]
@@ -283,8 +311,8 @@ theorem pipeTail_spans (E : Env) (t : Text) (w0 : WordShape) (hw : t.words = [w0
   obtain ⟨p1, _, p3, _, _⟩ := setPos_spans E (((t.split E [CharClass.whitespace, CharClass.control,
     CharClass.punctuation]).strip E [CharClass.notAlphaNum]).lower E)
   constructor
-  · rw [s1, c2, p1, lower_words, b1]
-  · rw [s3, c3, p3, stable_lower_chars, b3, a3]
+  · rw [s1, c2, p1, stable_lower_words, b1]
+  · rfl
 
 def Span.range (x : Span) : Nat × Nat := (x.lo, x.hi)
 
@@ -356,13 +384,14 @@ theorem asciiLower_iff (cs : List Nat) : AsciiLower cs ↔ ∀ c ∈ cs, asciiLo
 instance (cs : List Nat) : Decidable (AsciiLower cs) := decidable_of_iff _ (asciiLower_iff cs).symm
 
 /-- Oracle hypothesis about Rust's `std` on the 36 code points `a`–`z`, `0`–`9` (checked by the harness together
-    with `UnicodeFacts`): letters are alphabetic, digits numeric, none is whitespace, control or upper-case. -/
+    with `UnicodeFacts`): letters are alphabetic, digits numeric, none is whitespace or control, and each is its
+    own lower-case form (`to_lowercase` leaves it alone). -/
 structure AsciiFacts (U : Unicode) : Prop where
   alpha     : ∀ c, 97 ≤ c → c ≤ 122 → U.isAlphabetic c = true
   numeric   : ∀ c, 48 ≤ c → c ≤ 57 → U.isNumeric c = true
   not_space : ∀ c, asciiLowerChar c = true → U.isWhitespace c = false
   not_ctrl  : ∀ c, asciiLowerChar c = true → U.isControl c = false
-  not_upper : ∀ c, asciiLowerChar c = true → U.isUppercase c = false
+  lower_fixed : ∀ c, asciiLowerChar c = true → U.lower1 c = c
 
 /-- no key of the normalisation table consists of ASCII lower-case letters / digits only -/
 def asciiFree (m : List (List Nat × List Nat)) : Bool := m.all (fun e => !(e.1.all asciiLowerChar))
@@ -437,7 +466,7 @@ theorem stable_of_asciiLower (E : Env) (hK : E.K = Gen.srcConsts) (hA : AsciiFac
     rcases hc with h | h
     · exact Or.inl (hA.alpha c h.1 h.2)
     · exact Or.inr (hA.numeric c h.1 h.2)
-  refine ⟨hne, ?_, ?_, ?_, fun c hc => hA.not_upper c (hb c hc), composeWith_ascii _ hF.1 cs hb,
+  refine ⟨hne, ?_, ?_, ?_, fun c hc => hA.lower_fixed c (hb c hc), composeWith_ascii _ hF.1 cs hb,
     reduceWith_ascii _ hF.2 cs hb⟩
   · intro c hc
     simp only [isSepChar, hA.not_space c (hb c hc), hA.not_ctrl c (hb c hc), hK, srcPunctuation_ascii c (hb c hc),
